@@ -47,6 +47,9 @@ type RecState struct {
 	LoginAuth func(req *logical.Request) *logical.Auth
 	// RevokeErr makes secret revocation fail at the backend.
 	RevokeErr error
+	// OnLease, when set, is called once while the backend is generating a leased secret
+	// (the harness uses it to cancel the client's request context at that moment).
+	OnLease func(handlerCtx context.Context)
 	// Tagger, when set, labels the physical operations issued while the
 	// backend runs a storage program ("prog" path) so that the harness can
 	// tell the backend's own storage traffic from the core's bookkeeping.
@@ -155,6 +158,10 @@ func (b *recBackend) HandleRequest(ctx context.Context, req *logical.Request) (*
 
 	switch req.Operation {
 	case logical.RevokeOperation:
+		// like a backend that talks to an external system, refuse to work under a dead context
+		if cerr := ctx.Err(); cerr != nil {
+			return nil, cerr
+		}
 		id, _ := req.Secret.InternalData["id"].(string)
 		b.st.mu.Lock()
 		err := b.st.RevokeErr
@@ -209,7 +216,12 @@ func (b *recBackend) HandleRequest(ctx context.Context, req *logical.Request) (*
 		b.st.seq++
 		id := fmt.Sprintf("sec-%d", b.st.seq)
 		b.st.Issued = append(b.st.Issued, id)
+		onLease := b.st.OnLease
+		b.st.OnLease = nil
 		b.st.mu.Unlock()
+		if onLease != nil {
+			onLease(ctx)
+		}
 		ttl := 3600 * time.Second
 		if d, ok := intField(req.Data, "ttl"); ok {
 			ttl = time.Duration(d) * time.Second
